@@ -1365,7 +1365,7 @@ def _gen_ctrl_add_nodes(world: World, rnd):
     frames = list(range(world.frames))
     rnd.shuffle(frames)
     frames = frames[:k]
-    top = max(world.nodes() + [0])
+    top = max(world.nodes() + list(world.stray_now()) + [0])  # labels are unique across time
     if top + k > int(np.iinfo(tr.segmentation.dtype).max):
         return None
     nxt = int(tr.get_next_track_id())
